@@ -141,8 +141,37 @@ def tla_lines(out, tag):
     return res
 
 
+def _spec_digest(module, cfg):
+    h = hashlib.sha1()
+    for root in (SPEC, os.path.join(SPEC, "mc")):
+        for fn in sorted(os.listdir(root)):
+            if fn.endswith(".tla") and (root == SPEC or fn == module + ".tla"):
+                h.update(open(os.path.join(root, fn), "rb").read())
+    h.update(open(os.path.join(SPEC, "mc", cfg + ".cfg"), "rb").read())
+    return h.hexdigest()
+
+
 def design_check(module, cfg, tag, workers=4, timeout=900, want_replay=False, simulate=None, env_extra=None):
-    """A design-level TLC run. A failure here is a machinery error (exit 2), never a VIOLATION."""
+    """A design-level TLC run. A failure here is a machinery error (exit 2), never a VIOLATION.
+    Design models do not depend on /repo, so the result of an identical (specification, config) pair
+    checked less than 40 minutes ago by another check of the same sweep is reused (marked cached)."""
+    cdir = os.path.join(WORK, "cache")
+    os.makedirs(cdir, exist_ok=True)
+    cpath = os.path.join(cdir, "%s-%s-%s.json.gz" % (module, cfg, _spec_digest(module, cfg)[:16]))
+    if simulate is None and env_extra is None and os.path.exists(cpath) and time.time() - os.path.getmtime(cpath) < 2400 \
+            and not os.environ.get("VERIF_NO_CACHE"):
+        try:
+            with gzip.open(cpath, "rt") as f:
+                d = json.load(f)
+            if want_replay or not d.get("replay"):
+                log("design %s/%s: %d states (cached result of an identical run %.0fs ago), %d replay lines" %
+                    (module, cfg, d["states"], time.time() - os.path.getmtime(cpath), len(d["replay"])))
+                d["cached"] = True
+                if not want_replay:
+                    d["replay"] = []
+                return d
+        except Exception:
+            pass
     r = run_tlc("mc/%s.tla" % module, "mc/%s.cfg" % cfg, tag, workers=workers, timeout=timeout,
                 simulate=simulate, env_extra=env_extra)
     if r["timeout"]:
@@ -153,8 +182,16 @@ def design_check(module, cfg, tag, workers=4, timeout=900, want_replay=False, si
     rep = tla_lines(r["out"], "REPLAY") if want_replay else []
     log("design %s/%s: %d states (%d generated) %.1fs, %d replay lines" %
         (module, cfg, r["distinct"], r["generated"], r["wall"], len(rep)))
-    return {"module": module, "cfg": cfg, "states": r["distinct"], "transitions": r["generated"],
-            "wall": r["wall"], "replay": rep}
+    res = {"module": module, "cfg": cfg, "states": r["distinct"], "transitions": r["generated"],
+           "wall": r["wall"], "replay": rep}
+    if simulate is None and env_extra is None and want_replay and len(r["out"]) < 150_000_000:
+        try:
+            with gzip.open(cpath + ".tmp", "wt") as f:
+                json.dump(res, f)
+            os.replace(cpath + ".tmp", cpath)
+        except Exception:
+            pass
+    return res
 
 
 # ---------------------------------------------------------------------------------------
@@ -316,7 +353,7 @@ class Run:
     def add_design(self, d):
         self.states += d["states"]
         self.transitions += d["transitions"]
-        self.design.append({k: d[k] for k in ("module", "cfg", "states", "transitions", "wall")})
+        self.design.append({k: d[k] for k in ("module", "cfg", "states", "transitions", "wall", "cached") if k in d})
 
     def nontriv(self, key):
         self.nontrivial.add(hashlib.sha1(json.dumps(key, sort_keys=True, separators=(",", ":")).encode()).hexdigest())
